@@ -15,7 +15,7 @@ func init() {
 	register(&propertyDef{
 		id:    "C07",
 		title: "run-time failures surface as errors, never as a crash",
-		rules: []ruleFunc{c07R1, c07R2, c07R3, c07R4, c07R5, c07R6, c07R7, c07R8, c07R9},
+		rules: []ruleFunc{c07R1, c07R2, c07R3, c07R4, c07R5, c07R6, c07R7, c07R8, c07R9, c07R10, c07R11},
 		decided: "no explicit panic is reachable in the run path except tabled internal invariants, some of which are discharged by checking their static reason (R1); " +
 			"every unchecked type assertion in the run path is justified by a dominating validation or by construction (R2); the error of expression resolution in the notify loop is routed to the error report, cancel and return (R3); " +
 			"(thorough) integer division/remainder in the expression evaluator is guarded by a zero test (R4); values tested for absence are not dereferenced on the failing branch (R5). Shared: variables shared with goroutines are written under a lock — concurrent map writes abort the process (R6 = C17.R2).",
@@ -1272,4 +1272,87 @@ func c07R9(c *Ctx) {
 	c.explain("C07.R9 every constant position taken in a slice or in a reflected list ((reflect.Value).Index(k)) on the run path is dominated by a length test of that value which implies the position exists: an empty list of loop items, an empty result list or an empty argument list is legal input, and indexing it panics in a goroutine that nothing recovers")
 	n := c.constIndexRule(rule, c.runFns(), c07IndexTable, "an empty or shorter run-time value (an empty `items` list is legal) panics with index out of range in a run goroutine")
 	c.ok(rule, "count", "-", fmt.Sprintf("%d constant positions on the run path", n), false)
+}
+
+// table: function|map origin -> why the element exists
+var c07MapElemTable = map[string]string{}
+
+// C07.R11 map elements of pointer type are not dereferenced blindly on the run path.
+func c07R11(c *Ctx) {
+	const rule = "C07.R11"
+	c.explain("C07.R11 on the run path, a map element of pointer type that is read without the comma-ok form and then dereferenced (field access, or receiver of a method) is guarded by a nil test, is read with a key that comes from ranging over that very map, or is tabled: `outputs[id].Unserialize(…)` with an id reported by a plugin dereferences nil for an id the schema does not declare, in the step's goroutine")
+	n := 0
+	cnt := map[string]int{}
+	for _, fn := range c.runFns() {
+		eachInstr(fn, func(r instrRef) {
+			lk, ok := r.I.(*ssa.Lookup)
+			if !ok || lk.CommaOk || lk.Referrers() == nil {
+				return
+			}
+			if _, isMap := lk.X.Type().Underlying().(*types.Map); !isMap {
+				return
+			}
+			if _, isPtr := lk.Type().Underlying().(*types.Pointer); !isPtr {
+				return
+			}
+			if _, isC := constString(lk.Index); isC {
+				return // constant keys of engine-built maps: covered by the shape rules (C08.R1, C11.R5)
+			}
+			var deref ssa.Instruction
+			for _, ref := range *lk.Referrers() {
+				switch y := ref.(type) {
+				case *ssa.FieldAddr:
+					if y.X == ssa.Value(lk) {
+						deref = y
+					}
+				case *ssa.UnOp:
+					if y.Op == token.MUL && y.X == ssa.Value(lk) {
+						deref = y
+					}
+				case *ssa.Call:
+					// receiver of a statically called method (a value receiver dereferences at the call, a pointer receiver inside)
+					if f := y.Common().StaticCallee(); f != nil && f.Signature.Recv() != nil && len(y.Common().Args) > 0 && y.Common().Args[0] == ssa.Value(lk) {
+						deref = y
+					}
+				}
+			}
+			if deref == nil {
+				return
+			}
+			n++
+			isNilTest := func(cond ssa.Value) bool {
+				b, ok := cond.(*ssa.BinOp)
+				return ok && (b.Op == token.NEQ || b.Op == token.EQL) && sameVal(b.X, lk) && isNilConst(b.Y)
+			}
+			origin := valueOrigin(lk.X)
+			tk := c.fnName(fn) + "|" + origin
+			cnt[tk]++
+			key := "map-elem-deref@" + c.fnName(fn) + "#" + sanitize(origin)
+			if cnt[tk] > 1 {
+				key += fmt.Sprintf("#%d", cnt[tk])
+			}
+			if guardedBy(deref, true, isNilTest) != nil || guardedBy(deref, false, isNilTest) != nil {
+				c.ok(rule, key, c.instrPos(deref), "dereferenced under a nil test", true)
+				return
+			}
+			// the key ranges over the same map
+			if derivesFrom(lk.Index, func(v ssa.Value) bool {
+				nx, ok := v.(*ssa.Next)
+				if !ok {
+					return false
+				}
+				rg, ok := nx.Iter.(*ssa.Range)
+				return ok && (sameVal(rg.X, lk.X) || derivesFrom(rg.X, isValue(lk.X)) || derivesFrom(lk.X, isValue(rg.X)))
+			}) {
+				c.ok(rule, key, c.instrPos(deref), "the key comes from ranging over the same map", true)
+				return
+			}
+			if why, ok := c.tabledS(c07MapElemTable, fn, "|"+origin); ok {
+				c.ok(rule, key, c.instrPos(deref), "tabled: "+why, false)
+				return
+			}
+			c.bad(rule, key, c.instrPos(deref), fmt.Sprintf("the element of %s selected by a run-time key is dereferenced without a nil or comma-ok test: a key the map does not have (an output id the plugin never declared, a stage the lifecycle lacks) panics with a nil dereference in a goroutine nothing recovers", origin))
+		})
+	}
+	c.ok(rule, "count", "-", fmt.Sprintf("%d dereferenced map elements with run-time keys on the run path", n), false)
 }
